@@ -32,7 +32,6 @@ func init() {
 		Assumptions: []string{
 			"issuer 'equals' subject is read as byte equality of the two encodings; certificates whose names are equal only after normalisation are counted (ambiguous_name_equality) and not asserted",
 			"self-signature is decided only for key/algorithm combinations the independent verifier can decide with certainty (sane RSA, ECDSA P-224..P-521 with strict DER signatures, Ed25519, DSA with hash <= q); others are counted as undecided",
-			"FingerprintNoCT invariance is asserted for templates with >= 1 non-CT extension; the no-other-extension case (empty extension list after stripping vs no extension field) is counted separately",
 		},
 	}, runC06)
 }
@@ -158,11 +157,13 @@ func c06Check(c *core.Ctx, cert *zx509.Certificate, raw []byte, mode bool, desc,
 		c.Count("version_undecided", 1)
 	}
 
-	// validity period (consistency with the certificate's own bounds)
-	d := cert.NotAfter.Unix() - cert.NotBefore.Unix()
-	if d > -9000000000 && d < 9000000000 { // time.Duration saturates near 292 years
-		if int64(cert.ValidityPeriod) != d {
-			viol("validity-period", "ValidityPeriod = %d, NotAfter-NotBefore = %d s", cert.ValidityPeriod, d)
+	// validity period: NotAfter-NotBefore in seconds (sub-second parts, possible in permissive mode, may round either way)
+	dsec := cert.NotAfter.Unix() - cert.NotBefore.Unix()
+	if dsec > -9000000000 && dsec < 9000000000 { // time.Duration saturates near 292 years
+		exactNs := dsec*1000000000 + int64(cert.NotAfter.Nanosecond()-cert.NotBefore.Nanosecond())
+		diff := int64(cert.ValidityPeriod)*1000000000 - exactNs
+		if diff <= -1000000000 || diff >= 1000000000 {
+			viol("validity-period", "ValidityPeriod = %d, NotAfter-NotBefore = %d ns", cert.ValidityPeriod, exactNs)
 		}
 	}
 
@@ -293,15 +294,7 @@ func c06CTFamily(c *core.Ctx, g *gen, id string) int {
 	}
 	in := c06Input{Mode: "strict", Fam: fam, Desc: fmt.Sprintf("template with %d non-CT extensions", len(baseExts))}
 	if len(baseExts) == 0 {
-		// interpretation: not asserted (see Assumptions), only counted
-		for _, m := range members[1:] {
-			if !bytes.Equal(m.fp, members[0].fp) {
-				c.Count("ct_no_other_extension_fingerprint_differs_(not_asserted)", 1)
-				break
-			}
-		}
 		c.Count("ct_families_without_other_extensions", 1)
-		return len(members)
 	}
 	for _, m := range members[1:] {
 		if !bytes.Equal(m.fp, members[0].fp) {
